@@ -72,19 +72,22 @@ theorem refines_of_bits {w2 : Nat} (t : Raw w2) (spec : BV) (hw2 : 0 < w2)
 
 -- ---- 1. `Bvf (op)= rhs` --------------------------------------------------------------------------------
 theorem Bvf.bitAt_bitopAssign (op : BitOp) (s : Raw w) (x : AnyBv) (hw : 0 < w) (h : s.Inv)
-    (hf : ∀ i j, j < w → (Bvf.rhsWord w s.data.size x i).getLsbD j = x.abs.bit (i * w + j)) (i : Nat) :
+    (hf : ∀ i j, i < s.data.size → j < w →
+      (Bvf.rhsWord w s.data.size x i).getLsbD j = x.abs.bit (i * w + j)) (i : Nat) :
     bitAt (Bvf.bitopAssign op s x).data i =
       (decide (i < s.length) && op.apb (bitAt s.data i) (x.abs.bit i)) := by
   unfold Bvf.bitopAssign
   simp only
-  rw [bitAt_mod2n _ _ _ hw, bitAt_mapIdx, BitOp.getLsbD_ap, hf _ _ (Nat.mod_lt i hw), div_mul_add_mod]
+  rw [bitAt_mod2n _ _ _ hw]
   by_cases hi : i < s.length
-  · have := div_lt_size_of_lt_length h hw hi
-    simp [hi, this, bitAt]
+  · have hlt := div_lt_size_of_lt_length h hw hi
+    rw [bitAt_mapIdx, BitOp.getLsbD_ap, hf _ _ hlt (Nat.mod_lt i hw), div_mul_add_mod]
+    simp [hi, hlt, bitAt]
   · simp [hi]
 
 theorem Bvf.bitopAssign_refines (op : BitOp) (s : Raw w) (x : AnyBv) (hw : 0 < w) (h : s.Inv)
-    (hf : ∀ i j, j < w → (Bvf.rhsWord w s.data.size x i).getLsbD j = x.abs.bit (i * w + j)) :
+    (hf : ∀ i j, i < s.data.size → j < w →
+      (Bvf.rhsWord w s.data.size x i).getLsbD j = x.abs.bit (i * w + j)) :
     (Bvf.bitopAssign op s x).Inv ∧
     (Bvf.bitopAssign op s x).abs =
       (match op with | .and => s.abs.and x.abs | .or => s.abs.or x.abs | .xor => s.abs.xor x.abs) ∧
